@@ -1013,6 +1013,7 @@ type autoInv struct {
 }
 
 type loopFrame struct {
+	modHeaps map[string]bool
 	guards   []loopGuard
 	autos    []autoInv
 	autoSyms map[Term]bool // head values of the arrays of loop-carried slice variables
@@ -1042,6 +1043,7 @@ func (u *Unit) checkAutoInv(st *State, lf *loopFrame) {
 func (u *Unit) havocForLoop(st *State, run func(*State) []*State, ord int) (*State, *loopFrame) {
 	lf := &loopFrame{ord: ord}
 	modVars, modHeaps, allocs := u.dryRun(st, run)
+	lf.modHeaps = modHeaps
 	h := st.fork()
 	mark := u.root().nfresh
 	for o := range modVars {
@@ -1512,12 +1514,22 @@ func (u *Unit) execRange(st *State, x *ast.RangeStmt, label string) flow {
 // range over a map: the body runs for an arbitrary present key; the invariant must be
 // re-established after each such iteration (it sees deletions and insertions made by the body).
 func (u *Unit) execRangeMap(st *State, x *ast.RangeStmt, lc *loopCtx, coll Val, mt *types.Map, keyObj, valObj types.Object, label string) flow {
-	u.checkInvariants(st, lc, "inv-entry", nil)
+	// ghost set of the keys already produced by the iteration: `visited[k]` in invariants. Each iteration picks a present,
+	// unvisited key; when the body does not insert into the map, every key present at exit has been visited.
+	ks := u.keySort(mt)
+	visSort := sArr(ks, SBool)
+	vis0 := fmt.Sprintf("((as const %s) false)", visSort)
+	visVal := func(t Term) map[string]Val { return map[string]Val{"visited": scalar(t, visSort, nil)} }
+	u.checkInvariants(st, lc, "inv-entry", visVal(vis0))
+	visH := u.fresh("visited", visSort)
+	var curKey Val
 	bind := func(s *State) {
 		k := u.freshVal("rangekey", mt.Key())
 		s.assume(u.typeAssume(k))
 		s.assume(tNot(tEq(coll.S, "0")))
 		s.assume(u.mapHas(s, mt, coll.S, k))
+		s.assume(tNot(tSel(visH, k.S)))
+		curKey = k
 		if keyObj != nil {
 			s.vars[keyObj] = k
 		}
@@ -1538,14 +1550,23 @@ func (u *Unit) execRangeMap(st *State, x *ast.RangeStmt, lc *loopCtx, coll Val, 
 		return outs
 	}
 	h, lf := u.havocForLoop(st, iter, lc.ord)
-	u.assumeInvariants(h, lc, nil)
+	u.assumeInvariants(h, lc, visVal(visH))
 	var out flow
 	exit := h.fork()
 	exit.trace = append(exit.trace, fmt.Sprintf("loop%d:exit", lc.ord))
+	d, _, _ := mapHeaps(mt)
+	if !lf.modHeaps[d] {
+		// the body never writes the key set of a map of this type: all present keys have been visited
+		q := fmt.Sprintf("k!q%d", u.nextQ())
+		kv := scalar(q, ks, mt.Key())
+		hasT := u.mapHas(exit, mt, coll.S, kv)
+		exit.assume(fmt.Sprintf("(forall ((%s %s)) (! (=> %s (select %s %s)) :pattern ((select %s %s))))", q, ks, hasT, visH, q, visH, q))
+	}
 	out.normal = append(out.normal, exit)
 	body := h.fork()
 	body.trace = append(body.trace, fmt.Sprintf("loop%d:iter", lc.ord))
 	bind(body)
+	bodyKey := curKey
 	gmark := u.pushLoopFrame(lf)
 	f := u.execBlock([]*State{body}, x.Body.List)
 	u.popLoopFrame(gmark)
@@ -1557,8 +1578,9 @@ func (u *Unit) execRangeMap(st *State, x *ast.RangeStmt, lc *loopCtx, coll Val, 
 			out.cont = append(out.cont, j)
 		}
 	}
+	visNext := tStore(visH, bodyKey.S, "true")
 	for _, b := range backs {
-		u.checkInvariants(b, lc, "inv-keep", nil)
+		u.checkInvariants(b, lc, "inv-keep", visVal(visNext))
 		u.checkAutoInv(b, lf)
 	}
 	for _, j := range f.brk {
